@@ -82,6 +82,12 @@ func init() {
 
 // Execute performs one simulated run of plan under chooser ch.
 func Execute(t *testing.T, sc *Scenario, plan *Plan, ch *Chooser, maxSteps int, keepEvents bool) (res *RunResult) {
+	// the cap is a livelock detector, not a budget: very many workers may
+	// legitimately need many steps (n tasks contending for one lock take of
+	// the order of n*n scheduling steps), so it grows with the worker count
+	if w := max(plan.Par, twinPar(plan)); w > 64 {
+		maxSteps *= 1 + w/64
+	}
 	res = &RunResult{}
 	defer func() {
 		if x := recover(); x != nil {
@@ -362,3 +368,10 @@ func SortedKeys[V any](m map[string]V) []string {
 // librarySite tells sites inserted by the instrumenter ("file.go:line:col:kind")
 // from sites of harness code ("monoid.stall", "fn.emit", ...).
 func librarySite(site string) bool { return strings.Contains(site, ".go:") }
+
+func twinPar(p *Plan) int {
+	if p.Twin != nil {
+		return p.Twin.Par
+	}
+	return 0
+}
